@@ -536,7 +536,12 @@ Definition append1 (st : head * disk) (x : Z * Z * Z) : head * disk :=
               (ref, s, mkH (h_series h ++ [(ref, s)]) ref (h_unmod h), [RSeries [(ref, id)]])
     end in
   if in_order s t then
-    let s' := mkS (s_id s) (s_mm s) (s_mmmax s) (s_in s ++ [(t, v)]) (s_has_ooo s) (s_oomm s) (s_ooh s) in
+    (* memSeries.append without a head chunk: a sample not newer than the newest m-mapped chunk is
+       ignored ("already in the mmapped chunks") - after the WAL record has been logged and
+       although Append and Commit report success *)
+    let stored := negb (match s_in s with [] => t <=? s_mmmax s | _ => false end) in
+    let s' := mkS (s_id s) (s_mm s) (s_mmmax s) (if stored then s_in s ++ [(t, v)] else s_in s)
+                  (s_has_ooo s) (s_oomm s) (s_ooh s) in
     (mkH (update ref s' (h_series h1)) (h_last h1) (h_unmod h1),
      mkD (d_blocks d) (d_minvalid d) (d_ckpt d) (append_last (d_wal d) (recs0 ++ [RSamples [(ref, t, v)]])) (d_wbl d) (d_chunks d) (d_cap d))
   else
